@@ -246,7 +246,7 @@ def plan_c16(tier):
                 rule="the complete (no deduplication) enumeration of operation histories of engine A - every operation with every boundary, out-of-contract and usize::MAX-class argument on every handle, from each of 18 roots - "
                      "is executed in 12 configurations {std, no-default-features, extra-platforms} x {release, debug-assertions+overflow-checks} x {even, odd allocator addresses}; per history the address-free observable record "
                      "(which calls panicked, return values, contents, lengths, capacities, uniqueness, leaks) is hashed per bucket (root, first operation) and the 12 digest vectors are compared; the first differing history is located by "
-                     "dumping the bucket in both configurations. The C10 getter table is compared across profiles and parities by the C10 check itself (both must equal the independent decoder). evaluations = histories executed; distinct_nontrivial = buckets",
+                     "dumping the bucket in both configurations. Second stage: the Buf/BufMut engines (adapter trees x cursor operations, putters on every target, Writer, the getter table) run in the release and the debug-assertions profile against their profile-independent models; a case that fails in one profile only is reported as a profile dependence. evaluations = histories / sequences executed; distinct_nontrivial = buckets",
                 bounds="quick: every history of <= 2 operations after the root (about 10^4 per root and configuration); thorough: <= 3 operations (about 10^6)",
                 assumptions=["capacities are compared too (Vec growth policy is configuration independent)", "big-endian / 32-bit targets are not run"])
 
